@@ -13,6 +13,11 @@ def run(ck):
     b = ck.go_build("c01")
     trace, summ = ck.run_driver(b)
     ck.validate(MODULE, trace, sig=sig)
+    # what leaves the exporter while its own refresher is writing too (UDP): one short refresh session of the C14 driver
+    b14 = ck.go_build("c14", race=True)
+    t14, s14 = ck.run_driver(b14, ["-scen", "refresh"], env_extra={"GORACE": "halt_on_error=0 exitcode=0"}, allow_rc=(0, 2), name="refresh")
+    vlib.append_monitor_events(t14, vlib.race_reports(s14["stderr_path"]))
+    ck.validate("C14Trace", t14, sig=lambda ev: "Refresh:" + ev.get("e", "?"))
     ck.assumptions += ["exporter and collector run in one process and share the (global) registry; certificates are minted per run",
                        "UDP messages <= 60000 bytes, DTLS messages <= 8000 bytes (transport limits); the largest value that fits a message (65511 bytes) is exercised over TCP and TLS; a 65535-byte value cannot fit any message and is covered at codec level (C15)",
                        "a message not delivered within 3 s on any transport is reported as Lost (no action explains it)"]
@@ -21,4 +26,4 @@ def run(ck):
               technique="TLA+ Pipeline spec (Exporter o channel o delivery; TLC exhaustive channel skeleton) + TLC trace validation of ESend/CDeliver events of real exporter-collector sessions")
 
 def replay(path):
-    vlib.replay(PROP, MODULE, path)
+    vlib.replay(PROP, "C14Trace" if "C14Trace" in path else MODULE, path)
